@@ -1,9 +1,19 @@
 """Texts of MANIFEST.json per property (level claimed, trusted base)."""
 
 NOT_YET = {p: "not claimed yet: model and check are still being built in this round (see DESIGN.md section 5); no other technique is substituted" for p in
-           ["C01", "C02", "C03", "C04", "C05", "C06", "C07", "C08", "C12", "C14", "C15"]}
+           ["C03", "C04", "C05", "C06", "C07", "C08", "C12", "C14", "C15"]}
 
 TEXTS = {
+    "C01": {
+        "text": "Proof: DB.step models commit (any batch), rotate, flushAdd, flushRemove and compaction of ANY subset of tables with any admissible watermark and any block size; Inv (sortedness, consistency, generations ordered up to duplicates, every committed entry present or shadowed at or below the watermark, flushed immutable covered by the tables) is proved for every step (inv_step), hence every reachable state (inv_run); C01_get_snapshot / C01_get_latest: DB.search returns the newest committed version, for every step sequence, key and read timestamp not below a used watermark; C01_background_invisible. Every Config and flusher timing is one of these sequences. Correspondence: real DB with tiny thresholds, flusher gated by hooks so that background steps fall between API calls chosen by the generator; every Get, table content and watermark replayed through the model.",
+        "note": "Trusted: Lean kernel, driver, harness/hooks, lock skeleton for step atomicity (re-extracted every run). Lower layers through C17/C10/C16/C09 theorems. murmur3/S2 parameters.",
+        "technique": "Lean 4 inductive invariant over all step sequences + refinement to an MVCC map + differential replay of gated real executions",
+    },
+    "C02": {
+        "text": "Proof: C02_reopen: from every state satisfying the invariant Close's steps (drain oldest first, then flush the active memtable) are enabled, end with every memtable in tables, keep the committed history and the invariant, and the counter Open recomputes from stored versions equals the counter before the restart (no timestamp reused); C02_reopen_reads: every key reads as before; C02_still_writable. Correspondence: Close/Open cycles with re-drawn configuration inside the db suite (immediately after rotation, non-empty queue, empty memtable), nextTs, leftover files and all reads compared.",
+        "note": "Trusted as C01; table files parsed back by recovery: C11. wal replay after clean Close is empty (checked dynamically).",
+        "technique": "Lean 4 proof that Close/Open is a sequence of invariant-preserving steps + differential replay",
+    },
     "C09": {
         "text": "Proof: theorems C09_preserves / C09_only_shadowed / C09_no_invention / C09_sorted_nonempty hold for every set of tables, every choice of compaction inputs, every watermark, every block size and every (key, ts >= watermark) — by induction over entry lists, no bound. The model (LSM.mergeVersions, discardStale, buildTable, search) is executable and is compared with level.go (flushToL0, checkAndCompact incl. cascades, recover, searchLowerBound) on generated layouts, output contents and all lookups of the universe; lookups are also compared with a brute-force specification proved correct (newestBrute_newest).",
         "note": "Trusted: Lean kernel (+propext, Classical.choice, Quot.sound), driver compilation, harness/hooks. Modelled not verified: kway heap merge (observational model: sorted, later list wins), S2, murmur3/bloom (arbitrary predicate without false negatives), file I/O. Hypothesis: consistent contents (same versioned key => same entry).",
